@@ -120,7 +120,8 @@ pub fn gen(tier: Tier, rng: &mut Rng) -> Vec<Sx> {
                                    Sx::l(vec![Sx::n(0), Sx::s(*rng.pick(&names)), Sx::b(rng.chance(4, 5)), Sx::l(fs)]) }
                         3 => Sx::l(vec![Sx::n(1), Sx::s(*rng.pick(&names))]),
                         _ => { let f = *rng.pick(&fields); let op = *rng.pick(&[" == ", " != ", " >= ", " <= ", " > ", " < ", "==", " contains ", ""]);
-                               let lit = if op.is_empty() { "" } else { *rng.pick(&["true", "5", "\"x\"", "1.5"]) };
+                               // literals that contain operator characters: the field is what stands before the FIRST operator of the goal
+                               let lit = if op.is_empty() { "" } else { *rng.pick(&["true", "5", "\"x\"", "1.5", "'a==b'", "\"<\"", "\">= 1\"", "'x != y'", "\"a contains b\""]) };
                                let g = format!("{}{}{}", f, op, lit);
                                Sx::l(vec![Sx::n(2), Sx::s(f), Sx::s(&g)]) }
                     });
